@@ -42,3 +42,27 @@ pub fn block_on<F: Future>(fut: F) -> F::Output {
         }
     }
 }
+
+/// `std::panic::catch_unwind` as seen by the database under the simulator: a panic caught by the
+/// database's own code is noted (it is not a thread death), and the forced unwind with which the
+/// engine tears down unfinished coroutines at the end of an execution passes through.
+pub fn catch_unwind<F: FnOnce() -> R + std::panic::UnwindSafe, R>(f: F) -> std::thread::Result<R> {
+    match std::panic::catch_unwind(f) {
+        Err(p) if core::in_cleanup() => std::panic::resume_unwind(p),
+        Err(p) => {
+            core::probe("panic_caught_by_database");
+            let me = core::me();
+            let _ = core::try_with_ctx(|c| {
+                if let Some((m, l)) = c.last_panic.take() {
+                    let seq = c.events.len() as u64;
+                    let role = c.roles.get(&me).cloned().unwrap_or_default();
+                    if c.panics.len() < 256 {
+                        c.panics.push(core::PanicRec { seq, task: me, role, message: m, location: l, contained: true });
+                    }
+                }
+            });
+            Err(p)
+        }
+        ok => ok,
+    }
+}
